@@ -652,8 +652,14 @@ func TestC15ChildDialClose(t *testing.T) {
 	if mode != "none" {
 		ice = strings.Split(strings.TrimPrefix(mode, "ice:"), ",")
 	}
-	broker := &BrokerChannel{Rendezvous: &c15StubRendezvous{kind: "unreachable"}, keepLocalAddresses: true, natType: "unknown"}
-	tr := &Transport{dialer: NewWebRTCDialer(broker, parseIceServers(ice), 1), eventDispatcher: event.NewSnowflakeEventDispatcher()}
+	// the client exactly as the binary builds it: NewSnowflakeClient parses the ICE addresses, starts the NAT-type
+	// probe goroutine over them and wires the dialer; only the rendezvous method is replaced (unreachable broker)
+	tr, err := NewSnowflakeClient(ClientConfig{BrokerURL: "http://127.0.0.1:1/", ICEAddresses: ice, KeepLocalAddresses: true, Max: 1})
+	if err != nil {
+		fmt.Printf("C15CHILD dial-failed NewSnowflakeClient: %v\n", err)
+		return
+	}
+	tr.SetRendezvousMethod(&c15StubRendezvous{kind: "unreachable"})
 	c, err := tr.Dial()
 	if err != nil {
 		fmt.Printf("C15CHILD dial-failed %v\n", err)
@@ -686,7 +692,7 @@ func c15DialCloseTwice(r *vh.Run, ice []string) {
 			r.Skip("dial-close-twice: " + l)
 			return
 		}
-		if strings.HasPrefix(l, "panic:") || strings.Contains(l, "[signal ") || strings.Contains(l, ".connect(") || strings.Contains(l, "webrtc.go:") {
+		if strings.HasPrefix(l, "panic:") || strings.Contains(l, "[signal ") || strings.Contains(l, ".connect(") || strings.Contains(l, "webrtc.go:") || strings.Contains(l, "snowflake.go:") {
 			detail += strings.TrimSpace(l) + " | "
 		}
 	}
@@ -985,6 +991,8 @@ func TestVerifC15(t *testing.T) {
 		c15ConnectLoop(r, true)
 		c15DialCloseTwice(r, nil)
 		c15DialCloseTwice(r, []string{""}) // the client binary's default -ice value
+		c15DialCloseTwice(r, []string{"   "})
+		c15DialCloseTwice(r, []string{"stun:127.0.0.1:1", ""}) // trailing comma
 	}()
 
 	// 1. sequential scripts
